@@ -854,6 +854,223 @@ theorem bPowRes_par {s : St α} (hs : StoreOKB V s) (a n : Nat) :
       | none => exact ⟨rfl, ha⟩
       | some v => exact ⟨rfl, hv v hp⟩
 
+
+omit h in
+/-- the bivariate ARITHMETIC operations: constructors `nats ints zero embed regs` (not the raw
+    decoder `map`, not `str`), arithmetic, division, equality, observers; not `bInterp` -/
+def bOp : Op → Bool
+  | .bCtor _ _ how _ => how == "nats" || how == "ints" || how == "zero" || how == "embed" ||
+      how == "regs"
+  | .bBin .. | .bUn .. | .bScale .. | .bPow .. | .bEval .. | .bCoef .. | .bLc .. | .bIn ..
+  | .bSetScale .. | .bSetCoef .. | .bQuoRem .. | .bRem .. | .bEq .. | .bObs _ => true
+  | _ => false
+
+omit h in
+theorem AllM_filterMap {β : Type} {W : α → Prop} (l : List β) (g : β → Option (Deg × α))
+    (hg : ∀ t x, g t = some x → W x.2) : AllM W (l.filterMap g) := by
+  intro x hx
+  obtain ⟨t, _, ht⟩ := List.mem_filterMap.1 hx
+  exact hg t x ht
+
+theorem step_bOp_agree (desc : FieldDesc) {s : St α} (hs : StoreOKB V s) (op : Op)
+    (hop : bOp op = true) :
+    step env' desc s op = step env desc s op ∧ StoreOKB V (step env desc s op).1 := by
+  have A := h.u.base.agree 0
+  have C := h.u.base.closed 0
+  cases op <;> try (simp only [bOp, Bool.false_eq_true] at hop; done)
+  case bBin dst o a b =>
+    obtain ⟨e, hv⟩ := bBinRes_par h hs o a b
+    rw [step_bBin, step_bBin]
+    exact putB h hs dst e hv _
+  case bUn dst o a =>
+    obtain ⟨e, hv⟩ := bUnRes_par h hs o a
+    rw [step_bUn, step_bUn]
+    exact putB h hs dst e hv _
+  case bScale dst a e =>
+    obtain ⟨e1, hv⟩ := bScaleRes_par h hs a e
+    rw [step_bScale, step_bScale]
+    exact putB h hs dst e1 hv _
+  case bSetScale a e =>
+    obtain ⟨e1, hv⟩ := bSetScaleRes_par h hs a e
+    rw [step_bSetScale, step_bSetScale]
+    exact putB h hs a e1 hv _
+  case bPow dst a n =>
+    obtain ⟨e, hv⟩ := bPowRes_par h hs a n
+    rw [step_bPow, step_bPow]
+    exact putB h hs dst e hv _
+  case bIn o a b =>
+    obtain ⟨e, hv⟩ := bInRes_par h hs o a b
+    rw [step_bIn, step_bIn, e, showB_eq h]
+    exact ⟨rfl, hs.setB _ _ hv⟩
+  case bSetCoef o a d e =>
+    rw [step_bSetCoef, step_bSetCoef]
+    simp only [eGet_eq h.u.base, F0]
+    have ha := bGet_ok hs a
+    have he := eValB_ok h hs e
+    obtain ⟨e1, hv1⟩ := B.setCoef_par A ha d he
+    obtain ⟨e2, hv2⟩ := B.incCoef_par A C ha d he
+    obtain ⟨e3, hv3⟩ := B.decCoef_par A C ha d he
+    rw [e1, e2, e3]
+    refine putB h hs a rfl ?_ _
+    show AllM (V 0) (if _ then _ else _)
+    split
+    · exact ha
+    · split
+      · exact hv1
+      · split
+        · exact hv2
+        · exact hv3
+  case bEval dst a x y =>
+    simp only [step, stepE, stepU, stepB, eGet_eq h.u.base, F0]
+    obtain ⟨e, hv⟩ := B.eval_par A C (bGet_ok hs a) (eValB_ok h hs x) (eValB_ok h hs y)
+    rw [A.zero, e]
+    refine putEB h hs dst rfl ?_ _
+    split
+    · exact C.zero
+    · exact hv
+  case bCoef dst a d =>
+    simp only [step, stepE, stepU, stepB, F0]
+    rw [B.coef_congr A]
+    exact putEB h hs dst rfl (B.coef_V C (bGet_ok hs a) d) _
+  case bLc dst a =>
+    simp only [step, stepE, stepU, stepB, F0, bord_eq h]
+    rw [B.lc_congr A]
+    exact putEB h hs dst rfl (B.lc_V C _ (bGet_ok hs a)) _
+  case bEq a b =>
+    simp only [step, stepE, stepU, stepB, F0]
+    rw [B.equal_congr A]
+    exact ⟨rfl, hs⟩
+  case bObs a =>
+    simp only [step, stepE, stepU, stepB, F0, bord_eq h, bring]
+    obtain ⟨e, -⟩ := B.lt_par A C (bord env (bGet s a).home) (bGet_ok hs a)
+    rw [B.lc_congr A, A.enc, e, encB_eq h, h.bring', B.toStr_congr A (h.bringOK _).hF]
+    exact ⟨rfl, hs⟩
+  case bQuoRem dsts a gs =>
+    simp only [step, stepE, stepU, stepB, F0, bord_eq h, encB_eq' h]
+    have ha := bGet_ok hs a
+    have hgs : B.AllMM (V 0) ((gs.map (bGet s)).map (·.val)) := by
+      intro g hg
+      obtain ⟨r, hr, rfl⟩ := List.mem_map.1 hg
+      obtain ⟨k, _, rfl⟩ := List.mem_map.1 hr
+      exact bGet_ok hs k
+    cases hc : bCheck (bGet s a) (gs.map (bGet s)) with
+    | some rb => exact ⟨rfl, hs⟩
+    | none =>
+      obtain ⟨e, hv⟩ := B.quoRem_par A C (bord env (bGet s a).home) BPoly.divFuel none ha hgs
+      dsimp only
+      rw [e]
+      cases hq : BPoly.quoRem (env.fld 0) (bord env (bGet s a).home) BPoly.divFuel none (bGet s a).val
+          ((gs.map (bGet s)).map (·.val)) with
+      | error k => exact ⟨rfl, hs⟩
+      | ok o =>
+        cases o with
+        | none => exact ⟨rfl, hs⟩
+        | some qr =>
+          obtain ⟨qs, r⟩ := qr
+          obtain ⟨hq1, hq2⟩ := hv qs r hq
+          refine ⟨rfl, ?_⟩
+          refine StoreOKB.foldB (bGet s a).home (dsts.zip (qs ++ [r])) hs ?_
+          intro x hx
+          have := (List.of_mem_zip hx).2
+          rcases List.mem_append.1 this with h1 | h1
+          · exact hq1 _ h1
+          · rw [List.mem_singleton] at h1; rw [h1]; exact hq2
+  case bRem dst a gs =>
+    simp only [step, stepE, stepU, stepB, F0, bord_eq h, encB_eq' h]
+    have ha := bGet_ok hs a
+    have hgs : B.AllMM (V 0) ((gs.map (bGet s)).map (·.val)) := by
+      intro g hg
+      obtain ⟨r, hr, rfl⟩ := List.mem_map.1 hg
+      obtain ⟨k, _, rfl⟩ := List.mem_map.1 hr
+      exact bGet_ok hs k
+    cases hc : bCheck (bGet s a) (gs.map (bGet s)) with
+    | some rb => exact ⟨rfl, hs⟩
+    | none =>
+      obtain ⟨e, hv⟩ := B.rem_par A C (bord env (bGet s a).home) BPoly.divFuel ha hgs
+      dsimp only
+      rw [e]
+      cases hq : BPoly.rem (env.fld 0) (bord env (bGet s a).home) BPoly.divFuel (bGet s a).val
+          ((gs.map (bGet s)).map (·.val)) with
+      | error k => exact ⟨rfl, hs⟩
+      | ok o =>
+        cases o with
+        | none => exact ⟨rfl, hs⟩
+        | some r => exact ⟨rfl, hs.setB dst _ (hv r hq)⟩
+  case bCtor dst ring how arg =>
+    simp only [bOp, Bool.or_eq_true, beq_iff_eq] at hop
+    have hR := h.bringOK ring
+    have fin : ∀ (o o' : Option (BPoly α)), o' = o → B.OptM (V 0) o →
+        ((({ s with bs := St.setL s.bs dst (match o' with
+            | some v => ({ home := ring, val := v } : BReg α)
+            | none => { home := ring, val := [], err := .kind .internal }) },
+          "ok " ++ showB env' (match o' with
+            | some v => ({ home := ring, val := v } : BReg α)
+            | none => { home := ring, val := [], err := .kind .internal })) : St α × String)
+        = ({ s with bs := St.setL s.bs dst (match o with
+            | some v => ({ home := ring, val := v } : BReg α)
+            | none => { home := ring, val := [], err := .kind .internal }) },
+          "ok " ++ showB env (match o with
+            | some v => ({ home := ring, val := v } : BReg α)
+            | none => { home := ring, val := [], err := .kind .internal }))) ∧
+        StoreOKB V { s with bs := St.setL s.bs dst (match o with
+            | some v => ({ home := ring, val := v } : BReg α)
+            | none => { home := ring, val := [], err := .kind .internal }) } := by
+      intro o o' e ho
+      subst e
+      cases o' with
+      | none => exact putB h hs dst rfl B.nil_V _
+      | some v => exact putB h hs dst rfl (ho v rfl) _
+    have hF' : (bring env' ring).F = env'.fld 0 := by unfold bring; rw [h.bring']; rfl
+    have hF : (bring env ring).F = env.fld 0 := hR.hF
+    have hb' : bring env' ring = B.withFB (bring env ring) (env'.fld 0) := h.bring' ring
+    rcases hop with (((rfl | rfl) | rfl) | rfl) | rfl
+    · simp only [step, stepE, stepU, stepB, String.reduceBEq, Bool.false_eq_true, if_false, if_true,
+        hF', hF, A.ofNat]
+      rw [hb']
+      refine fin _ _ (B.ofMap_par A C (R := bring env ring) hR ?_).1
+        (B.ofMap_par A C (R := bring env ring) hR ?_).2 <;>
+      · split
+        · exact B.nil_V
+        · refine AllM_filterMap _ _ (fun t x ht => ?_)
+          split at ht
+          · cases ht; exact h.u.ofNat 0 _
+          · cases ht
+    · simp only [step, stepE, stepU, stepB, String.reduceBEq, Bool.false_eq_true, if_false, if_true,
+        hF', hF, A.ofInt]
+      rw [hb']
+      refine fin _ _ (B.ofMap_par A C (R := bring env ring) hR ?_).1
+        (B.ofMap_par A C (R := bring env ring) hR ?_).2 <;>
+      · split
+        · exact B.nil_V
+        · refine AllM_filterMap _ _ (fun t x ht => ?_)
+          split at ht
+          · cases ht; exact h.u.ofInt 0 _
+          · cases ht
+    · simp only [step, stepE, stepU, stepB, String.reduceBEq, Bool.false_eq_true, if_false, if_true]
+      exact fin (some []) (some []) rfl (fun v hv => by cases hv; exact B.nil_V)
+    · simp only [step, stepE, stepU, stepB, String.reduceBEq, Bool.false_eq_true, if_false, if_true]
+      generalize arg.splitOn ":" = l
+      rcases l with _ | ⟨a, _ | ⟨b, _ | ⟨c, l⟩⟩⟩
+      · exact ⟨rfl, hs⟩
+      · exact ⟨rfl, hs⟩
+      · dsimp only
+        have ha := bGet_ok hs ((a.drop 1).toString.toNat!)
+        split_ifs with c1 c2
+        · exact ⟨rfl, hs⟩
+        · obtain ⟨e, hv⟩ := bReduce_par h (r := { (bGet s ((a.drop 1).toString.toNat!)) with home := ring }) ha
+          exact putB h hs dst e hv _
+        · exact putB h hs dst (r := { (bGet s ((a.drop 1).toString.toNat!)) with home := ring }) rfl ha _
+      · exact ⟨rfl, hs⟩
+    · simp only [step, stepE, stepU, stepB, String.reduceBEq, Bool.false_eq_true, if_false, if_true,
+        hF', hF, eGet_eq h.u.base]
+      rw [hb']
+      refine fin _ _ (B.ofMap_par A C (R := bring env ring) hR ?_).1
+        (B.ofMap_par A C (R := bring env ring) hR ?_).2 <;>
+      · refine AllM_filterMap _ _ (fun t x ht => ?_)
+        split at ht
+        · cases ht; exact eValB_ok h hs _
+        · cases ht
+
 end StepB
 end Tables
 end Algobra
